@@ -17,84 +17,6 @@ import (
 	"testing"
 )
 
-func vcWinding(pt Point64, poly Path64) int {
-	w := 0
-	n := len(poly)
-	for i := 0; i < n; i++ {
-		a, b := poly[i], poly[(i+1)%n]
-		if a.Y <= pt.Y {
-			if b.Y > pt.Y && (b.X-a.X)*(pt.Y-a.Y)-(pt.X-a.X)*(b.Y-a.Y) > 0 {
-				w++
-			}
-		} else if b.Y <= pt.Y && (b.X-a.X)*(pt.Y-a.Y)-(pt.X-a.X)*(b.Y-a.Y) < 0 {
-			w--
-		}
-	}
-	return w
-}
-
-func vcFar(pt, a, b Point64) bool {
-	dx, dy := b.X-a.X, b.Y-a.Y
-	px, py := pt.X-a.X, pt.Y-a.Y
-	l2 := dx*dx + dy*dy
-	if l2 == 0 {
-		return px*px+py*py > 4
-	}
-	t := px*dx + py*dy
-	if t <= 0 {
-		return px*px+py*py > 4
-	}
-	if t >= l2 {
-		qx, qy := pt.X-b.X, pt.Y-b.Y
-		return qx*qx+qy*qy > 4
-	}
-	cr := px*dy - py*dx
-	return cr*cr > 4*l2
-}
-
-func vcFill(fr FillRule, w int) bool {
-	switch fr {
-	case EvenOdd:
-		return w%2 != 0
-	case NonZero:
-		return w != 0
-	case Positive:
-		return w > 0
-	}
-	return w < 0
-}
-
-func vcOp(ct ClipType, s, c bool) bool {
-	switch ct {
-	case Intersection:
-		return s && c
-	case Union:
-		return s || c
-	case Difference:
-		return s && !c
-	}
-	return s != c
-}
-
-func vcFarFromAll(pt Point64, pp Paths64) bool {
-	for _, p := range pp {
-		for i := range p {
-			if !vcFar(pt, p[i], p[(i+1)%len(p)]) {
-				return false
-			}
-		}
-	}
-	return true
-}
-
-func vcWindAll(pt Point64, pp Paths64) int {
-	w := 0
-	for _, p := range pp {
-		w += vcWinding(pt, p)
-	}
-	return w
-}
-
 func TestVerifBoundedBoolean(t *testing.T) {
 	n := 3000
 	if os.Getenv("VERIF_TIER") == "thorough" {
